@@ -15,14 +15,17 @@ from harness.core import Ctx, VERIF
 RULE = ("program trees (items = node | modification | property line below a node or on its own | import line "
         "`{?group.*}` / `{?group.node}` of a group defined in the same clause or of nothing at all | $unit directive, "
         "a share of which cannot be carried out | group | block of "
-        "1-4 clauses with optional @else and optional @end, written plainly or in compact form `parent.@case`), "
+        "1-4 clauses with optional @else and optional @end, written plainly or in compact form `parent.@case`, "
+        "optionally followed after an explicit @end by lines indented deeper than the @end), "
         "nesting depth <= 5 (thorough 6), children 1-3 columns deeper than their keyword, blocks closed by @end, by "
         "the next sibling (node, group, property line, block of another parent), by de-indentation of any number of "
         "levels or by the end of the text; every tree shape with <= 6 conditions is run under ALL truth "
         "assignments, larger ones under random ones; text decorations (blank lines, comment lines, trailing "
         "comments, expression conditions referring to a top-level node, bare-reference conditions `@case {?zt}` to "
         "top-level bool nodes in every clause position, conditions that cannot be evaluated inside unselected "
-        "clauses) on a share of the programs; malformed "
+        "clauses, one and the same condition text `(\"{?zc} == 1\")` on every top-level block with the node "
+        "modified in between, the whole text uniformly indented with empty lines around it, the text loaded with "
+        "DIP.add_file from a per-run scratch file) on a share of the programs; malformed "
         "stream = rendered programs with inserted / deleted / re-indented / re-parented lines incl. stray "
         "@else/@end/@case with equal and different parents; histories = a base code and 2-4 further codes each "
         "parsed on the environment of the base or of an earlier step (earlier codes ending inside open blocks / "
@@ -46,6 +49,8 @@ ASSUMPTIONS = [
     "to the model's and the specification's effect list: C17 territory); `$unit` lines are observed only through "
     "failing or not; the hierarchy entry an import leaves behind is a placeholder in the model (observable only by "
     "lines deeper than the import line, which the generators do not write)",
+    "texts loaded from a file are programs without modifications (from a file a modification of an undefined node "
+    "does not raise: another property); `$source` + `{src?*}` is not used to feed texts",
     "remote imports, $source, tables and `parse_docs` are outside the model",
 ]
 EXPLANATION = ("theorems: for every program tree, truth assignment, indentation oracle and written parents the state "
